@@ -76,12 +76,14 @@ def mk_query_ssid(rng, chans, heads, words):
     for i in range(2, len(s)):
         if rng.randrange(4) == 0:
             s[i] = rng.choice([WILD, MWILD, rng.choice(words)])
-    if len(s) >= 4 and rng.randrange(5) == 0:
+    if len(s) >= 4 and rng.randrange(3) == 0:
         # a wildcard level in the middle followed by literal levels: the levels after it still count
         i = rng.randrange(2, len(s) - 1)
         s[i] = rng.choice([WILD, MWILD, MWILD])
-        if rng.randrange(2):
-            s[-1] = rng.choice(words)
+        if rng.randrange(3):
+            # ... so a filter that differs from a stored channel only AFTER the wildcard must not return it
+            others = [w for w in words if w != s[-1]] + [rng.getrandbits(32)]
+            s[-1] = rng.choice(others)
     if rng.randrange(40) == 0:
         s[1] = rng.choice([WILD, MWILD])              # outside the property: first level must be literal
     if rng.randrange(25) == 0:
